@@ -41,7 +41,7 @@ def run(ctx: core.Ctx):
             out.append((spec, rng.randrange(10 ** 9), rng.choice([0, 0, 3])))
         return out
     b2check.run_b2(ctx, paused, ["C07"], label="receivers that stop answering for a few seconds in the middle of the start-up dialogue")
-    b2check.run_b2(ctx, lambda rng, th: [(gen.api_init_two_ok(rng, T), rng.randrange(10 ** 9), 0) for _ in range(2500 if th else 50)], ["C07"],
+    b2check.run_b2(ctx, lambda rng, th: [(gen.api_init_two_ok(rng, T), rng.randrange(10 ** 9), 0) for _ in range(800 if th else 50)], ["C07"],
                    label="a second YncaApi object initialised against another receiver afterwards: each object exposes its own receiver (monitor only)", accept=False)
     b2check.run_b2(ctx, lambda rng, th: [(gen.api_reinit(rng, T), rng.randrange(10 ** 9), 0) for _ in range(3000 if th else 60)], ["C07"],
                    label="second initialize() on the same object after a failed first attempt, monitor only", accept=False)
